@@ -9,6 +9,9 @@ def chain(e):
     """x.f(a).g(b) -> (x, [('f', call), ('g', call)]) ; attribute access without call yields (attr, None)"""
     ops = []
     while True:
+        if isinstance(e, ast.Call) and isinstance(e.func, ast.Attribute) and isinstance(e.func.value, ast.Name) \
+                and e.func.value.id in ("torch", "numpy", "np", "F", "math", "itertools", "pandas"):
+            break   # module-level function call: this is the base of the chain
         if isinstance(e, ast.Call) and isinstance(e.func, ast.Attribute):
             ops.append((e.func.attr, e))
             e = e.func.value
